@@ -227,6 +227,11 @@ pub fn main(args: &Args) -> i32 {
         for outs in seqs {
             c33_one(&mut rep, &outs);
         }
+        // failures that arise inside the run, from the world rather than from the hook
+        let factory = Factory::new();
+        for kind in ["fatal-in-process", "retry-in-process", "fatal-in-process/late"] {
+            c33_world(&mut rep, &factory, kind);
+        }
     }
 
     // ---------------- C34
@@ -309,6 +314,99 @@ fn c33_one(rep: &mut Report, outs: &[String]) {
     let _ = fx.process_once(&slurm(&concrete(3 - d)), false);
     rep.trace("C33");
     rep.sample("C33", b);
+}
+
+/// C33 with failures that arise in the middle of a run: a server on a real
+/// repository (TA with two CAs, rsync served in-process).  After a successful
+/// run the store is damaged so that the next run fails after part of the tree
+/// has already been validated:
+///   fatal-in-process   the stored point of ca3 is truncated: reading it is a fatal error
+///   retry-in-process   the stored point of ca3 is removed and the run is an initial
+///                      (quick, no update) one: "encountered new publication point", retry
+///   .../late           as fatal-in-process, with one validation thread so that ca2 has been
+///                      processed completely when ca3 fails
+fn c33_world(rep: &mut Report, factory: &Factory, kind: &str) {
+    use super::storecrash::{find_files, world};
+    let bed = TestBed::new();
+    bed.publish(&world(1, false).build(factory));
+    let bc = bed.config();
+    let threads = if kind.ends_with("/late") { 1 } else { 3 };
+    let mut fx = Fixture::start(|c| {
+        c.cache_dir = bc.cache_dir.clone();
+        c.extra_tals_dir = bc.extra_tals_dir.clone();
+        c.disable_rsync = false;
+        c.rsync_command = bc.rsync_command.clone();
+        c.rsync_args = bc.rsync_args.clone();
+        c.rsync_timeout = bc.rsync_timeout;
+        c.validation_threads = threads;
+        c.history_size = 10;
+    });
+    let mut engine = match routinator::engine::Engine::new(&fx.config, true) { Ok(e) => e, Err(_) => { rep.divergence("C33", "Engine::new failed"); return } };
+    if engine.ignite().is_err() { rep.divergence("C33", "engine ignite failed"); return }
+    fx.engine = engine;
+    let port = fx.http_port;
+    let rtr_port = fx.rtr_port;
+    let history = fx.history.clone();
+    let none = routinator::slurm::LocalExceptions::empty();
+    routinator::verif::set_outcomes(None);
+    if fx.process_once(&none, false).is_err() {
+        rep.divergence("C33", format!("{kind}: the first run on the intact repository failed"));
+        return
+    }
+    let before = observe(port, rtr_port, &history);
+    if !before["rtr_items"].as_str().unwrap_or("").contains("64503") {
+        rep.divergence("C33", format!("{kind}: the first run does not serve ca3's payload: {}", before["rtr_items"]));
+        return
+    }
+    // new data is waiting, and the store is damaged
+    bed.publish_files(&world(2, false).build(factory));
+    let mut files = Vec::new();
+    find_files(&bed.cache.join("stored").join("rsync"), "ca3.mft", &mut files);
+    if files.len() != 1 { rep.divergence("C33", format!("{kind}: stored point of ca3 not found ({})", files.len())); return }
+    let initial = kind.starts_with("retry");
+    if initial { let _ = std::fs::remove_file(&files[0]); }
+    else {
+        let data = std::fs::read(&files[0]).unwrap_or_default();
+        let _ = std::fs::write(&files[0], &data[..data.len().min(300)]);
+    }
+    let (ntx, nrx) = mpsc::channel();
+    let path = format!("/json-delta/notify?session={}&serial={}", before["session"], before["serial"]);
+    std::thread::spawn(move || { let _ = ntx.send(http_request(port, "GET", &path, &[], None, Duration::from_secs(20)).map(|r| r.status)); });
+    std::thread::sleep(Duration::from_millis(40));
+    let res = fx.process_once(&none, initial);
+    rep.eval("C33");
+    rep.nontrivial("C33", format!("world/{kind}"));
+    let after = observe(port, rtr_port, &history);
+    let ctx = json!({"world": "TA + ca2 + ca3 (two ROAs each), version 1 served, version 2 published", "failure": kind});
+    match res {
+        Ok(()) => {
+            // the run did not fail: then it is not a failed run, but it hit an error it should have failed on
+            if before != after {
+                rep.violation("C33", &format!("run-with-error-published/{kind}"),
+                    format!("the run hit the failure '{kind}' inside the validation, reported success and changed what is served"),
+                    ctx.clone(), json!({"before": before, "after": after}));
+            }
+            else {
+                rep.divergence("C33", format!("{kind}: the run did not fail"));
+            }
+        }
+        Err(fatal) => {
+            if fatal == initial { rep.divergence("C33", format!("{kind}: failure class fatal={fatal} unexpected")); }
+            if before != after {
+                rep.violation("C33", &format!("failed-run-changed-served-data/world/{kind}"),
+                    format!("a run failing inside the validation ('{kind}') changed what is served"), ctx.clone(),
+                    json!({"before": before, "after": after}));
+            }
+        }
+    }
+    if let Ok(st) = nrx.recv_timeout(Duration::from_millis(250)) {
+        rep.violation("C33", &format!("failed-run-notified/world/{kind}"),
+            "a run that failed inside the validation woke up a pending notify request", ctx, json!({"status": format!("{:?}", st)}));
+    }
+    // unblock the long-poll: repair the store and run again
+    let _ = std::fs::remove_file(&files[0]);
+    let _ = fx.process_once(&none, false);
+    rep.trace("C33");
 }
 
 fn c34_one(rep: &mut Report, factory: &Factory, b: &Value) {
